@@ -1,16 +1,21 @@
 #!/bin/bash
 # tools/seed_matrix.sh [ids...]: run every claimed check against every stored seed (scratch copies of /repo), 4 seeds in parallel.
-cd /verif
+# SNAP=1: run from a snapshot of /verif (so units/prelude/lib may be edited meanwhile); the Kani result cache is copied along.
+V=/verif
+if [ "${SNAP:-0}" = 1 ]; then V=/tmp/verif-snap; rm -rf $V; mkdir -p $V/build/kani; rsync -a --exclude build --exclude replays --exclude .git /verif/ $V/; rsync -a /verif/build/kani/cache $V/build/kani/; fi
+export V
+cd $V
 IDS=${@:-$(ls seeded | grep '^C')}
 PROPS=$(python3 -c "import sys; sys.path.insert(0,'lib'); import props; print(' '.join(sorted(props.PROPS)))")
 run_one() {
   ID=$1; D=/tmp/seedrun/$ID; rm -rf $D; mkdir -p $D; rsync -a --exclude target --exclude .git /repo/ $D/
-  (cd $D && patch -p1 -s < /verif/seeded/$ID/patch.diff) || { echo "seed=$ID PATCH-FAILED"; return; }
+  (cd $D && patch -p1 -s < $V/seeded/$ID/patch.diff) || { echo "seed=$ID PATCH-FAILED"; return; }
   for p in $PROPS; do
     out=$(./check $p --repo $D 2>&1); rc=$?
     echo "seed=$ID prop=$p rc=$rc $(echo "$out" | grep "^obligation failed\|^INCONCLUSIVE" | cut -c1-140 | tr '\n' ';')"
   done
-  rm -rf $D /verif/build/native/$(python3 -c "import hashlib,os;print(hashlib.sha256(os.path.abspath('$D').encode()).hexdigest()[:8])")
+  H=$(python3 -c "import hashlib,os;print(hashlib.sha256(os.path.abspath('$D').encode()).hexdigest()[:8])")
+  rm -rf $D $V/build/native/$H $V/build/kani/$H
 }
 export -f run_one; export PROPS
 echo $IDS | tr ' ' '\n' | xargs -P 4 -I{} bash -c 'run_one {}' 
